@@ -42,6 +42,22 @@ TVal == /\ Ev("val")
         /\ BoundOk(R.v, R.e, Earliest(R.v))
         /\ BoundOk(R.v, R.l, Latest(R.v))
 
+(* compact form of a "val" event for the date sweep:                        *)
+(*  {ev:"da", p, y, m, d, ok, text, bp, by, bm, bd, b1, b2, ey, em, ed, ly, lm, ld} *)
+DaV(p, y, m, d) == [V0 EXCEPT !.kind = "DA", !.dprec = p, !.y = y, !.m = m, !.d = d]
+DaI(y, m, d) == [y |-> y, m |-> m, d |-> d, h |-> 0, mi |-> 0, s |-> 0, us |-> 0]
+TDa == /\ Ev("da")
+       /\ LET v == DaV(R.p, R.y, R.m, R.d) IN
+            /\ Valid(v)
+            /\ R.ok
+            /\ R.text = Encode(v)
+            /\ DaV(R.bp, R.by, R.bm, R.bd) = v
+            /\ Parse("DA", R.text) = v
+            /\ R.b1 = ListByteLen(<<v>>)
+            /\ R.b2 = ListByteLen(<<v, v>>)
+            /\ DaI(R.ey, R.em, R.ed) = Earliest(v)
+            /\ DaI(R.ly, R.lm, R.ld) = Latest(v)
+
 RangePremise == /\ R.hasA => Valid(R.a) /\ R.a.kind = R.vkind
                 /\ R.hasB => Valid(R.b) /\ R.b.kind = R.vkind
                 /\ R.hasA \/ R.hasB
@@ -61,7 +77,7 @@ TRange == /\ Ev("range")
                /\ exp.hasStart => (Inst(R.res.start) = exp.start /\ R.res.tz = R.a.tz /\ R.res.offStart = R.a.off)
                /\ exp.hasEnd => (Inst(R.res.end) = exp.end /\ R.res.tz = R.b.tz /\ R.res.offEnd = R.b.off)
 
-TNext == TVal \/ TRange
+TNext == TVal \/ TDa \/ TRange
 TSpec == TInit /\ [][TNext]_tvars
 
 Track == TLCSet(1, IF l > TLCGet(1) THEN l ELSE TLCGet(1))
